@@ -129,3 +129,38 @@ func checkLockPairing(c *report.Ctx) {
 	c.Analysed("functions operating a mutex", nfn)
 	c.Check("R-COUNT", "lock-pairing/instances", "functions operating a mutex were found", nfn >= 40, 0, nfn, "%d functions, %d lock operations", nfn, nops)
 }
+
+// heldAtReturns lists the returns of f that can be reached with the mutex at path held and no deferred unlock
+// registered on every path to them, and the returns at which a registered deferred unlock may find it unlocked.
+func heldAtReturns(f *ssa.Function, path string) []string {
+	var defers []ssa.Instruction
+	for _, o := range an.LockOps(f) {
+		if !o.Acquire && o.Deferred && o.Path == path {
+			defers = append(defers, o.In)
+		}
+	}
+	must, may := an.NewHeld(f), an.NewMayHeld(f)
+	var bad []string
+	for _, b := range f.Blocks {
+		if len(b.Instrs) == 0 {
+			continue
+		}
+		ret, ok := b.Instrs[len(b.Instrs)-1].(*ssa.Return)
+		if !ok {
+			continue
+		}
+		covered := false
+		for _, d := range defers {
+			if an.InstrDominates(d, ret) {
+				covered = true
+			}
+		}
+		if may.At(ret)[path] && !covered {
+			bad = append(bad, sprintf("block %d: possibly held at return", b.Index))
+		}
+		if covered && !must.At(ret)[path] {
+			bad = append(bad, sprintf("block %d: deferred unlock of a mutex possibly not held", b.Index))
+		}
+	}
+	return bad
+}
